@@ -37,6 +37,7 @@ def build(tier, ctx):
                                                      else 7)]
     defs += [("FS", d) for d in fragment.staged_merge_family()
              if fragment.has_loop(d)]
+    defs += [("FD", d) for d in fragment.kill_in_loop_family()]
     defs += [("FK", d) for d in fragment.loop_on_break_path_family(
         5 if tier == "quick" else 6)]
     tasks = []
